@@ -506,6 +506,38 @@ _ONCE_VARIANTS = [
       (S, _G_EVAL, '\tjob := &blobJob{ks: ks, gen: genDesc}\n\tdesc, err := job.describe()\n\tif err != nil {\n\t\treturn nil, nil, err\n\t}\n\treturn s.Sign(ctx, desc, opts)\n'),
       (S, _GETDESC, _JOB + _GETDESC)]),
 ]
+# ---- sixth pass. CLASS "the evaluation of the generator stands in a closure / an unexported helper that is handed the algorithm":
+#      the algorithm argument of the generator call is a captured variable or a parameter; what it is, is decided where the
+#      closure is called / at the helper's (closed list of) call sites
+_DESCRIBE_FN = '\nfunc describeBlob(gen notation.BlobDescriptorGenerator, alg digest.Algorithm) (ocispec.Descriptor, error) {\n\treturn gen(alg)\n}\n'
+_DESCRIBE_FN_WRAPS = ('\nfunc describeBlob(gen notation.BlobDescriptorGenerator, alg digest.Algorithm) (ocispec.Descriptor, error) {\n\tdesc, err := gen(alg)\n\tif err != nil {\n'
+                      '\t\treturn ocispec.Descriptor{}, fmt.Errorf("failed to describe the blob with %v: %w", alg, err)\n\t}\n\treturn desc, nil\n}\n')
+_DESCRIBE_2 = ('\nfunc describeBlob(gen notation.BlobDescriptorGenerator, alg digest.Algorithm) (ocispec.Descriptor, error) {\n\treturn evaluate(alg, gen)\n}\n'
+               '\nfunc evaluate(a digest.Algorithm, g notation.BlobDescriptorGenerator) (ocispec.Descriptor, error) {\n\treturn g(a)\n}\n')
+_V_CLOSURE = '\tdescribe := func() (ocispec.Descriptor, error) { return descGenFunc(digestAlgo) }\n\tdesc, err := describe()\n'
+_V_CLOSURE_PARAM = '\tdescribe := func(alg digest.Algorithm) (ocispec.Descriptor, error) { return descGenFunc(alg) }\n\tdesc, err := describe(digestAlgo)\n'
+_V_HELPER_CALL = '\tdesc, err := describeBlob(descGenFunc, digestAlgo)\n'
+_S_HELPER_RET = '\treturn describeBlob(genDesc, digestAlg)\n}\n'
+_S_CLOSURE_RET = '\tdescribe := func() (ocispec.Descriptor, error) { return genDesc(digestAlg) }\n\treturn describe()\n}\n'
+_V_TWO_SITES = ('\tvar desc ocispec.Descriptor\n\tif len(opts.UserMetadata) > 0 {\n\t\tlogger.Debug("Describing the blob together with its user metadata")\n\t\tdesc, err = describeBlob(descGenFunc, %s)\n'
+                '\t} else {\n\t\tdesc, err = describeBlob(descGenFunc, digestAlgo)\n\t}\n')
+_ARG_VARIANTS = [
+ # (a) the verifier evaluates the generator inside a local closure that captures the digest algorithm
+ dict(name='benign-verifier-generator-in-closure-capturing-algorithm', file=V, expect='silent', find=_V_EVAL, replace=_V_CLOSURE),
+ dict(name='benign-verifier-generator-in-closure-taking-algorithm', file=V, expect='silent', find=_V_EVAL, replace=_V_CLOSURE_PARAM),
+ # (b) the evaluation moved into an unexported helper that takes the algorithm as a parameter
+ dict(name='benign-verifier-generator-in-algorithm-helper', expect='silent', edits=[(V, _MAP, _MAP + _DESCRIBE_FN), (V, _V_EVAL, _V_HELPER_CALL)]),
+ dict(name='benign-signer-generator-in-algorithm-helper', expect='silent', edits=[(SP, _MAP, _MAP + _DESCRIBE_FN), (S, _G_RET, _S_HELPER_RET)]),
+ dict(name='benign-both-generator-in-algorithm-helper', expect='silent', edits=[
+      (V, _MAP, _MAP + _DESCRIBE_FN), (V, _V_EVAL, _V_HELPER_CALL), (SP, _MAP, _MAP + _DESCRIBE_FN), (S, _G_RET, _S_HELPER_RET)]),
+ # further members of the class
+ dict(name='benign-signer-generator-in-closure-capturing-algorithm', file=S, expect='silent', find=_G_RET, replace=_S_CLOSURE_RET),
+ dict(name='benign-verifier-algorithm-helper-wraps-error', expect='silent', edits=[(V, _MAP, _MAP + _DESCRIBE_FN_WRAPS), (V, _V_EVAL, _V_HELPER_CALL)]),
+ dict(name='benign-signer-algorithm-helper-wraps-error', expect='silent', edits=[(SP, _MAP, _MAP + _DESCRIBE_FN_WRAPS), (S, _G_RET, _S_HELPER_RET)]),
+ dict(name='benign-verifier-algorithm-helper-two-deep', expect='silent', edits=[(V, _MAP, _MAP + _DESCRIBE_2), (V, _V_EVAL, _V_HELPER_CALL)]),
+ dict(name='benign-signer-algorithm-helper-two-deep', expect='silent', edits=[(SP, _MAP, _MAP + _DESCRIBE_2), (S, _G_RET, _S_HELPER_RET)]),
+ dict(name='benign-verifier-algorithm-helper-two-call-sites', expect='silent', edits=[(V, _MAP, _MAP + _DESCRIBE_FN), (V, _V_EVAL, _V_TWO_SITES % 'digestAlgo')]),
+]
 
 VARIANTS = [
  dict(name='F11-reintroduced', file=N, expect='flagged(reader/)',
@@ -662,4 +694,4 @@ VARIANTS = [
  # ======== second pass: classes of rewrites rather than single shapes ========
  # (5) CLASS "value computed by a module helper / parameter narrowed or widened": the expiry is the result of a helper that is
  #     handed the signing time and the duration (or the options, or the request), or a helper stores it into the request
-] + _EXPIRY_VARIANTS + _RETURN_VARIANTS + _OBJECT_VARIANTS + _CTOR_VARIANTS + _TABLE_VARIANTS + _CUT_VARIANTS + _ONCE_VARIANTS
+] + _EXPIRY_VARIANTS + _RETURN_VARIANTS + _OBJECT_VARIANTS + _CTOR_VARIANTS + _TABLE_VARIANTS + _CUT_VARIANTS + _ONCE_VARIANTS + _ARG_VARIANTS
